@@ -121,7 +121,8 @@ pub fn selftest(c: &H2Case) -> Result<(), Fail> {
     let mut dec = hpack_patched::Decoder::new();
     match dec.decode(&blk) {
         Ok(list) => {
-            let got: Vec<(Vec<u8>, Vec<u8>)> = list;
+            // the library's static table calls entry 15 `accept-` (K-C16-static15): not an encoder error
+            let got: Vec<(Vec<u8>, Vec<u8>)> = list.into_iter().zip(c.block.fields.iter()).map(|((n, v), f)| if n == b"accept-" && f.name == "accept-charset" { (b"accept-charset".to_vec(), v) } else { (n, v) }).collect();
             let exp: Vec<(Vec<u8>, Vec<u8>)> = c.block.fields.iter().map(|f| (f.name.as_bytes().to_vec(), f.value.clone())).collect();
             if got != exp {
                 return Err(fail!("harness:hpack-encoder-selftest", "block {} decodes to {} fields, expected {}", hex(&blk), got.len(), exp.len()));
@@ -151,10 +152,47 @@ pub fn check_after(c: &H2Case, earlier: &[H2Case], st: &mut Stats) -> Result<(),
     check_on(c, st, &procs).map_err(|f| Fail::new(format!("after-other-messages:{}", f.what), f.detail))
 }
 
+pub const K_STATIC15: &str = "K-C16-static15";
+
 pub fn check_on(c: &H2Case, st: &mut Stats, procs: &HttpProcessors) -> Result<(), Fail> {
     selftest(c)?;
+    let first = check_fields(c, procs, &c.block.fields);
+    if first.is_ok() {
+        return first;
+    }
+    // recorded finding: the HPACK library's static table names entry 15 `accept-` instead of `accept-charset`, so an
+    // accept-charset field that the encoder expressed through that entry is reported as `accept-` (and `Accept-Charset`
+    // counted as absent). Matched only if renaming some of the accept-charset fields explains the whole observation.
+    if c.block.fields.iter().any(|f| f.name == "accept-charset") && !st_strict() {
+        // which of them went through static entry 15 is read off a fresh library decoder run over the harness's own encoding
+        if let Ok(list) = hpack_patched::Decoder::new().decode(&c.encoded_block()) {
+            if list.len() == c.block.fields.len() {
+                let mut fields = c.block.fields.clone();
+                let mut renamed = 0;
+                for (f, (n, _)) in fields.iter_mut().zip(list.iter()) {
+                    if f.name == "accept-charset" && n == b"accept-" {
+                        f.name = "accept-".into();
+                        renamed += 1;
+                    }
+                }
+                if renamed > 0 && check_fields(c, procs, &fields).is_ok() {
+                    st.known(K_STATIC15);
+                    return Ok(());
+                }
+            }
+        }
+    }
+    first
+}
+
+/// is the finding listed (and the run not strict)? set from the run's context
+static STATIC15_KNOWN: std::sync::atomic::AtomicBool = std::sync::atomic::AtomicBool::new(false);
+fn st_strict() -> bool {
+    !STATIC15_KNOWN.load(std::sync::atomic::Ordering::Relaxed)
+}
+
+fn check_fields(c: &H2Case, procs: &HttpProcessors, fields: &[crate::gen::h2::Field]) -> Result<(), Fail> {
     let data = c.bytes();
-    let fields = &c.block.fields;
     let get = |n: &str| fields.iter().find(|f| f.name == n).map(|f| String::from_utf8_lossy(&f.value).to_string());
     // expected ordinary headers
     let mut exp_headers: Vec<(String, Option<String>)> = vec![];
@@ -177,7 +215,8 @@ pub fn check_on(c: &H2Case, st: &mut Stats, procs: &HttpProcessors) -> Result<()
             continue;
         }
         if c.request && f.name == "referer" {
-            referer = Some(v);
+            // an empty value is reported as "no value", like for every other header
+            referer = if v.is_empty() { None } else { Some(v) };
             continue;
         }
         exp_headers.push((f.name.clone(), if v.is_empty() { None } else { Some(v) }));
@@ -301,7 +340,6 @@ pub fn check_on(c: &H2Case, st: &mut Stats, procs: &HttpProcessors) -> Result<()
         }
         check_sig(&format!("{}", o.matching))?;
     }
-    let _ = st;
     Ok(())
 }
 
@@ -348,6 +386,7 @@ pub fn h2_case() -> impl Strategy<Value = H2Case> {
 }
 
 pub fn run(ctx: &Ctx) {
+    STATIC15_KNOWN.store(ctx.is_known(K_STATIC15), std::sync::atomic::Ordering::Relaxed);
     ctx.assume("one header block per connection start, on the first stream that carries HEADERS; a fresh HttpProcessors per case in the first sub-check, an instance that has decoded other messages in `after-other-messages`; user-agent / server / accept-language / referer appear at most once");
     ctx.assume("the harness's HPACK encoder is self-tested on every case by decoding its output with a fresh decoder of the hpack library");
     let n = ctx.tier.pick(60_000, 2_000_000);
@@ -431,6 +470,7 @@ pub fn run(ctx: &Ctx) {
 }
 
 pub fn replay(_ctx: &Ctx, sub: &str, input: &serde_json::Value) -> Result<(), Fail> {
+    STATIC15_KNOWN.store(_ctx.is_known(K_STATIC15), std::sync::atomic::Ordering::Relaxed);
     if sub == "after-other-messages" {
         let (c, earlier): (H2Case, Vec<H2Case>) = serde_json::from_value(input["value"].clone()).map_err(|e| fail!("bad-replay", "{e}"))?;
         let mut st = Stats::new();
